@@ -593,3 +593,106 @@ def run_storage(pid, tier):
 
 
 RUNNERS['storage'] = run_storage
+
+
+# =================================================================================================
+# C14: front-end equivalence (lock-step over syntaxes) + PlantUML tokenizer enumeration + guard batch
+def _puml_build(name, src, std='c++20', opt='-O2'):
+    import hashlib
+    import subprocess
+    d = vbuild.cache_dir()
+    h = hashlib.sha256(open(src, 'rb').read()).hexdigest()[:10]
+    exe = os.path.join(d, f'{name}_{h}')
+    if os.path.exists(exe):
+        return exe
+    cmd = ['g++', f'-std={std}', opt, '-w', f'-I{vbuild.REPO}/include', src, '-o', exe + f'.{os.getpid()}.tmp']
+    r = subprocess.run(cmd, capture_output=True, text=True)
+    if r.returncode != 0:
+        raise RuntimeError(f'{name} build failed:\n' + '\n'.join(l for l in r.stderr.split('\n') if 'error' in l)[:2000])
+    os.replace(exe + f'.{os.getpid()}.tmp', exe)
+    return exe
+
+
+def run_frontends(pid, tier):
+    import subprocess
+    spec = propsmod.PROPS[pid]
+    t0 = time.time()
+    rdir = os.path.join(VERIF, 'evidence', 'replays')
+    os.makedirs(rdir, exist_ok=True)
+    import glob
+    for old in glob.glob(os.path.join(rdir, f'{pid}-*.json')):
+        os.remove(old)
+    nviol = 0
+    # (a) lock-step over the front-end syntaxes
+    ls = run_lockstep(pid, tier, slices=spec.get('lockstep_' + tier) or spec['lockstep_quick'], write_evidence=False)
+    if isinstance(ls, int):
+        return ls
+    nviol += ls['nviol']
+    # (b) tokenizer enumeration at run time
+    tk = _puml_build('puml_tokenizer', os.path.join(VERIF, 'puml', 'tokenizer.cpp'))
+    args = spec['tokenizer'][tier] if tier in spec['tokenizer'] else spec['tokenizer']['quick']
+    r = subprocess.run([tk, *[str(a) for a in args]], capture_output=True, text=True)
+    tkres = {}
+    tkbad = []
+    tksamples = []
+    for line in r.stdout.split('\n'):
+        if line.startswith('RESULT'):
+            tkres = {k: int(v) for k, v in (x.split('=') for x in line.split()[1:])}
+        elif line.startswith('BAD '):
+            tkbad.append(line[4:])
+        elif line.startswith('SAMPLE '):
+            tksamples.append(line[7:])
+    if not tkres:
+        print(f'ERROR tokenizer harness crashed: {r.stderr[-500:]}', file=sys.stderr)
+        return 2
+    n_tk = tkres['bad_lines'] + tkres['bad_documents']
+    nviol += n_tk
+    for i, b in enumerate(tkbad[:MAX_REPORTED]):
+        path = os.path.join(rdir, f'{pid}-tokenizer-{i + 1}.json')
+        with open(path, 'w') as fh:
+            json.dump({'property': pid, 'part': 'tokenizer', 'finding': b, 'replay': f'{tk} {" ".join(str(a) for a in args)}'}, fh, indent=1)
+        print(f'VIOLATION property={pid} replay={path}')
+        print(f'  tokenizer: {b[:500]}')
+    # (c) compile-time batch: guard expression trees and state attribute lines
+    gsrc = os.path.join(vbuild.cache_dir(), 'puml_guards.cpp')
+    g = subprocess.run([sys.executable, os.path.join(VERIF, 'puml', 'gen_guards.py')], capture_output=True, text=True)
+    with open(gsrc, 'w') as fh:
+        fh.write(g.stdout)
+    ge = _puml_build('puml_guards', gsrc, opt='-O0')
+    r2 = subprocess.run([ge], capture_output=True, text=True)
+    gres = {}
+    gbad = []
+    for line in r2.stdout.split('\n'):
+        if line.startswith('RESULT'):
+            gres = {k: int(v) for k, v in (x.split('=') for x in line.split()[1:])}
+        elif line.startswith('BAD '):
+            gbad.append(line[4:])
+    nviol += gres.get('bad', 1)
+    for i, b in enumerate(gbad[:MAX_REPORTED]):
+        path = os.path.join(rdir, f'{pid}-guards-{i + 1}.json')
+        with open(path, 'w') as fh:
+            json.dump({'property': pid, 'part': 'guard-batch', 'finding': b, 'replay': ge}, fh, indent=1)
+        print(f'VIOLATION property={pid} replay={path}')
+        print(f'  guard batch: {b[:500]}')
+    cov = ls['coverage']
+    ev = {
+        'property_id': pid, 'tier': tier, 'seed': int(os.environ.get('VERIF_SEED', '0')), 'level': spec['level'],
+        'coverage': {
+            'states': cov['states'], 'transitions': cov['transitions'], 'traces_validated_against_impl': cov['traces_validated_against_impl'],
+            'evaluations': cov['evaluations'] + tkres['lines'] + tkres['documents'] + gres.get('guard_expressions', 0),
+            'distinct_nontrivial': cov['distinct_nontrivial'] + tkres['lines'],
+            'rule': spec['rule'], 'samples': cov['samples'][:3] + tksamples[:3], 'exhaustive': cov['exhaustive'],
+            'frontend_lockstep': cov['per_slice'], 'tokenizer': tkres, 'tokenizer_args': list(args), 'compile_time_batch': gres,
+        },
+        'assumptions': ['front-end syntaxes compared: functor Row (none, ActionSequence_, And_/Or_/Not_), basic row/a_row/g_row/_row + irow family, row2 family, PlantUML string; eUML is not covered',
+                        'tokenizer grammar and bounds as written in puml/tokenizer.cpp; un-wrapped edge documents are counted, not judged'],
+        'wall_s': round(time.time() - t0, 2), 'violations': nviol,
+    }
+    with open(os.path.join(VERIF, 'evidence', f'{pid}.json'), 'w') as fh:
+        json.dump(ev, fh, indent=1)
+    print(f'{pid} {tier}: front-end lock-step executions={cov["evaluations"]} tokenizer lines={tkres["lines"]} documents={tkres["documents"]} '
+          f'guard expressions={gres.get("guard_expressions", 0)} violations={nviol} wall={ev["wall_s"]}s')
+    return 1 if nviol else 0
+
+
+RUNNERS['frontends'] = run_frontends
